@@ -17,6 +17,43 @@ fn cfg(d: &mut Dna) -> GenCfg {
     c
 }
 
+/// a target that borrows for one of the type's own lifetimes: `Into(&'a u16)` on `S<'a>`, served in every variant by a
+/// field of exactly that type (marked, or found as the sole / the unique same-typed field)
+fn adjust(s: &mut TypeSpec, d: &mut Dna) -> bool {
+    let transparent = s.repr.as_deref().map(|r| r.contains("transparent")).unwrap_or(false);
+    if s.kind == Kind::Union || transparent || s.variants.is_empty() || s.variants.iter().any(|v| v.shape == Shape::Unit) || !d.chance(15) {
+        return true;
+    }
+    let bases = crate::types::base_types();
+    let base = &bases[[0usize, 1, 2, 14][d.pick(4)]];
+    let fresh = s.gens.lifetimes.is_empty();
+    let lt = if fresh { "q".to_string() } else { s.gens.lifetimes[d.pick(s.gens.lifetimes.len())].0.clone() };
+    let Some(fty) = crate::types::wrap(crate::types::Wrapk::Ref, base, Some(&lt)) else { return true };
+    let tgt = fty.src.clone();
+    let erased = crate::known::into_key(&tgt);
+    if s.into_targets().iter().any(|a| a.into_ty.as_deref().map(crate::known::into_key) == Some(erased.clone())) {
+        return true;
+    }
+    if fresh {
+        s.gens.lifetimes.push((lt.clone(), vec![]));
+    }
+    let at = d.pick(s.traits.len() + 1);
+    s.traits.insert(at, TAttr { tr: Tr::Into, into_ty: Some(tgt.clone()), params: vec![], sp: 0 });
+    for v in s.variants.iter_mut() {
+        let same_typed = v.fields.iter().any(|f| crate::known::into_key(&f.ty.src) == erased);
+        let mark = !v.fields.is_empty() && (same_typed || d.chance(60));
+        let name = if v.shape == Shape::Named { Some("lent".to_string()) } else { None };
+        let mut attrs = vec![];
+        if mark {
+            attrs.push(FAttr { tr: Tr::Into, into_ty: Some(tgt.clone()), params: vec![], sp: 0 });
+        }
+        let f = FieldSpec { name, ty: fty.clone(), attrs, split: 0, raw: vec![], default_expect: None, noise: vec![] };
+        let pos = d.pick(v.fields.len() + 1);
+        v.fields.insert(pos, f);
+    }
+    true
+}
+
 /// the field the documentation designates for `target` in variant `v`
 pub fn designated(v: &VariantSpec, target: &str) -> Option<usize> {
     if let Some(i) = v.fields.iter().position(|f| f.into_attr(target).is_some()) {
@@ -25,7 +62,7 @@ pub fn designated(v: &VariantSpec, target: &str) -> Option<usize> {
     if v.fields.len() == 1 {
         return Some(0);
     }
-    let same: Vec<usize> = v.fields.iter().enumerate().filter(|(_, f)| crate::known::erase_lifetimes(&f.ty.src) == crate::known::erase_lifetimes(target)).map(|(i, _)| i).collect();
+    let same: Vec<usize> = v.fields.iter().enumerate().filter(|(_, f)| crate::known::into_key(&f.ty.src) == crate::known::into_key(target)).map(|(i, _)| i).collect();
     if same.len() == 1 {
         Some(same[0])
     } else {
@@ -81,6 +118,9 @@ pub fn render(s: &TypeSpec) -> Option<Rendered> {
     if targets.iter().any(|t| s.inst_of(t) != *t) {
         classes.push("target_mentions_type_parameter".to_string());
     }
+    if targets.iter().any(|t| t.starts_with("&'") && !t.starts_with("&'static")) {
+        classes.push("target_borrows_for_a_lifetime_of_the_type".to_string());
+    }
     if s.variants.iter().any(|v| targets.iter().any(|t| v.fields.len() > 1 && v.fields.iter().all(|f| f.into_attr(t).is_none()))) {
         classes.push("found_by_unique_type".to_string());
     }
@@ -100,7 +140,7 @@ pub fn behaviour() -> Behaviour {
                U of the panel (trait-resolution probe); non-trivial = >=2 targets or >=2 candidate fields for one target",
         salt: 0xC10,
         cfg,
-        adjust: no_adjust,
+        adjust,
         render,
         quick: 4000,
         thorough: 20000,
